@@ -9,6 +9,18 @@ use crate::run::Stats;
 pub const CLAIMED: &[&str] =
     &["C01", "C02", "C03", "C04", "C05", "C06", "C07", "C08", "C09", "C10", "C11", "C12", "C13", "C15", "C16", "C17", "C18"];
 
+/// Generation by run index: a few run indices are reserved for scenarios that must be present
+/// in every batch (C08: hook-free real-scale runs).
+pub fn gen_case_indexed(prop: &str, rng: &mut Rng, tier: Tier, run: u64) -> Case {
+    if prop == "C08" {
+        let reserved = if tier == Tier::Quick { 1 } else { 6 };
+        if run < reserved {
+            return crate::props_sort::gen_c08_with(rng, tier, true);
+        }
+    }
+    gen_case(prop, rng, tier)
+}
+
 pub fn gen_case(prop: &str, rng: &mut Rng, tier: Tier) -> Case {
     match prop {
         "C01" => crate::props_file::gen_c01(rng, tier),
@@ -58,23 +70,23 @@ pub fn check_case(prop: &str, case: &Case, st: &mut Stats) -> Verdict {
 /// Number of seeded runs per tier.
 pub fn budget(prop: &str, tier: Tier) -> u64 {
     let (q, t) = match prop {
-        "C01" => (16_000, 400_000),
+        "C01" => (30_000, 400_000),
         "C02" => (4_000, 80_000),
-        "C03" => (20_000, 600_000),
+        "C03" => (40_000, 600_000),
         "C04" => (5_000, 100_000),
         "C05" => (5_000, 100_000),
         "C06" => (16_000, 400_000),
         "C07" => (8_000, 200_000),
         "C08" => (6_000, 100_000),
-        "C09" => (8_000, 200_000),
+        "C09" => (12_000, 200_000),
         "C10" => (5_000, 100_000),
         "C11" => (6_000, 150_000),
-        "C12" => (320, 8_000),
-        "C13" => (320, 8_000),
-        "C15" => (10_000, 300_000),
-        "C16" => (3_000, 80_000),
+        "C12" => (1_200, 12_000),
+        "C13" => (3_000, 40_000),
+        "C15" => (60_000, 600_000),
+        "C16" => (12_000, 120_000),
         "C17" => (12_000, 300_000),
-        "C18" => (16_000, 400_000),
+        "C18" => (60_000, 800_000),
         _ => (1000, 10_000),
     };
     match tier {
